@@ -183,6 +183,86 @@ func genTables(r *rand.Rand, c *Case, nExt int, errPct int) {
 
 func sp(s string) *string { return &s }
 
+// genStatReq lets one extractor's FileRequired consult api.Stat() (size threshold).
+func genStatReq(r *rand.Rand, c *Case, pct int) {
+	if r.Intn(100) < pct && len(c.Exts) > 0 {
+		e := c.Exts[r.Intn(len(c.Exts))]
+		c.StatReq = []StatReq{{Ext: e, Min: []int64{1, 5, 10, 11}[r.Intn(4)]}}
+	}
+}
+
+var pubPool = []string{"CVE", "GHSA", "AAA", "ZZZ"}
+var refPool = []string{"R1", "R2", "A9", "Z0"}
+var extraPool = []string{"", "x", "y"}
+
+func genDets(r *rand.Rand, c *Case) {
+	n := r.Intn(3)
+	for i := 0; i < n; i++ {
+		d := Det{Name: fmt.Sprintf("det%d", i)}
+		k := 1 + r.Intn(3)
+		for j := 0; j < k; j++ {
+			d.Findings = append(d.Findings, Finding{Pub: pubPool[r.Intn(len(pubPool))], Ref: refPool[r.Intn(len(refPool))], Extra: extraPool[r.Intn(len(extraPool))]})
+		}
+		c.Dets = append(c.Dets, d)
+	}
+}
+
+// genC01Multi: 2..3 roots that are variations of one content: the same relative paths with different sizes and
+// kinds, the file visited last in one root visited first in the next.
+func genC01Multi(r *rand.Rand) *Case {
+	c := &Case{Stream: "multiroot-shared"}
+	o := genOpts{maxDepth: 1, maxFan: 3, budget: 4}
+	b := o.budget
+	base := genDir(r, ".", 0, &b, o, 0)
+	if r.Intn(3) == 0 || len(base.Children) == 0 {
+		base = &Node{Name: ".", Kind: "dir", Children: []*Node{{Name: namePool[r.Intn(len(namePool))], Kind: "reg", Size: sizePool[r.Intn(len(sizePool))]}}}
+	}
+	n := 2 + r.Intn(2)
+	c.Roots = []*Node{base}
+	for i := 1; i < n; i++ {
+		prev := c.Roots[i-1]
+		v := clone(prev)
+		for _, d := range allNodes(v) {
+			if !d.n.isDir() {
+				if r.Intn(100) < 70 {
+					d.n.Size = sizePool[r.Intn(len(sizePool))]
+				}
+				if r.Intn(100) < 20 {
+					d.n.Kind = []string{"reg", "sym"}[r.Intn(2)]
+				}
+			}
+		}
+		// the entry listed last in the previous root comes first in this one
+		if k := len(v.Children); k > 1 {
+			last := v.Children[k-1]
+			v.Children = append([]*Node{last}, v.Children[:k-1]...)
+		}
+		c.Roots = append(c.Roots, v)
+	}
+	c.Symlinks = r.Intn(100) < 50
+	if r.Intn(100) < 60 {
+		c.MaxSize = []int{1, 5, 10}[r.Intn(3)]
+	}
+	genTables(r, c, 1+r.Intn(2), 15)
+	for _, e := range c.Exts { // most files required by every extractor
+		for _, root := range c.Roots {
+			for _, p := range pathsOf(root, func(x *Node) bool { return !x.isDir() }) {
+				has := false
+				for _, q := range c.Req {
+					if q[0] == e && q[1] == p {
+						has = true
+					}
+				}
+				if !has && r.Intn(100) < 70 {
+					c.Req = append(c.Req, [2]string{e, p})
+				}
+			}
+		}
+	}
+	genStatReq(r, c, 60)
+	return c
+}
+
 // genC01 draws one case for the option-interaction stream: fault-free trees, no limits.
 func genC01(r *rand.Rand, i int) *Case {
 	c := &Case{Stream: "options"}
@@ -225,6 +305,7 @@ func genC01(r *rand.Rand, i int) *Case {
 		c.IgnoreSub = true
 	}
 	genTables(r, c, 1+r.Intn(3), 20)
+	genStatReq(r, c, 25)
 	return c
 }
 
@@ -304,6 +385,7 @@ func genC08Group(r *rand.Rand, group int, groupSize int) []*Case {
 			}
 		}
 	}
+	genDets(r, base)
 	out := []*Case{base}
 	for k := 1; k < groupSize; k++ {
 		v := copyCase(base)
@@ -337,6 +419,7 @@ func genC08Multi(r *rand.Rand) *Case {
 	}
 	c.Symlinks = r.Intn(100) < 40
 	genTables(r, c, 1+r.Intn(2), 25)
+	genDets(r, c)
 	if r.Intn(3) == 0 {
 		// only the last root yields packages: inside the domain of multiroot_is_union_on_D
 		last := map[string]bool{}
